@@ -56,7 +56,7 @@ ASSUMPTIONS = [
     'declaring entities); for them only "canary content never appears" is demanded',
 ]
 FLOORS = {
-    'history:fail-then-locking-step': (0.15, 'history:base-run'),
+    'history:fail-then-locking-step': (0.15, 'history:run'),
     'history:fault-hit': (0.5, 'history:fault-run'),
     'history:nested-collation': (0.10, 'history:base-run'),
     'env:canary-asked': (0.2, 'env:query'),
@@ -177,7 +177,24 @@ def _preload():
 def _fork_call(fn, arg, timeout=None):
     """Run fn(arg) in a forked child; returns {'ok': json} | {'timeout': True} | {'died': status}."""
     _preload()
-    timeout = CHILD_TIMEOUT if timeout is None else timeout
+    global _CANARY_PATH
+    import tempfile
+    fd, _CANARY_PATH = tempfile.mkstemp(prefix='vp_c19_', suffix='.txt')    # removed by the parent, also after a kill
+    os.write(fd, CANARY_FILE_TEXT.encode())
+    os.close(fd)
+    try:
+        return _fork_call_inner(fn, arg, CHILD_TIMEOUT if timeout is None else timeout)
+    finally:
+        try:
+            os.unlink(_CANARY_PATH)
+        except OSError:
+            pass
+
+
+_CANARY_PATH = '/nonexistent'
+
+
+def _fork_call_inner(fn, arg, timeout):
     r, w = os.pipe()
     pid = os.fork()
     if pid == 0:
@@ -294,7 +311,12 @@ class _LockProxy:
 
     def force_release(self):
         while self.depth > 0:
-            self.release()
+            self.depth -= 1
+            try:
+                self.inner.release()
+            except RuntimeError:        # released behind the proxy's back
+                pass
+        self.owner = None
 
 
 class _InjectedState:
@@ -333,17 +355,12 @@ def _child_setup(cfg):
     S.real_setlocale(locale.LC_COLLATE, cfg.get('lc', 'C'))
     decimal.getcontext().prec = cfg.get('prec', 28)
     decimal.DefaultContext.prec = cfg.get('prec', 28)      # what new threads start from
-    fd, S.canary_path = tempfile.mkstemp(prefix='vp_c19_', suffix='.txt')
-    os.write(fd, CANARY_FILE_TEXT.encode())
-    os.close(fd)
+    S.canary_path = _CANARY_PATH
     return S
 
 
 def _child_cleanup(S):
-    try:
-        os.unlink(S.canary_path)
-    except OSError:
-        pass
+    pass
 
 
 def _dec_tuple():
@@ -671,7 +688,7 @@ def _judge_run(case, k, rec, discs):
             if step['k'] == 'nest' and _coll_class(step['c']) == 'locking' and _coll_class(step.get('c2')) == 'locking':
                 nested = True
     if rec is not None:
-        classes = ['history:base-run' if k == 0 else 'history:fault-run']
+        classes = ['history:run', 'history:base-run' if k == 0 else 'history:fault-run']
         if fail_then_lock:
             classes.append('history:fail-then-locking-step')
         if nested and k == 0:
@@ -1095,6 +1112,9 @@ def _child_threads(case):
             res = [[] for _ in range(T)]
             errs = []
             prebuilt = None if case['build_in_thread'] else [build(t) for t in range(T)]
+            if S.proxy.locked():
+                seq_viol.append(['lock-held', 'unlocked', 'locked after building selectors'])
+                S.proxy.force_release()
             roots = [shared if case['shared_root'] else _new_root(cfg.get('lxml', False)) for _ in range(T)]
 
             def work(t):
@@ -1265,8 +1285,8 @@ def selftest():
 
 def jobs(tier, seed):
     q = tier == 'quick'
-    plan = {'history': (8, 30) if q else (10, 700), 'env': (2, 60) if q else (2, 1500),
-            'entities': (3, 60) if q else (2, 1500), 'threads': (3, 30) if q else (2, 500)}
+    plan = {'history': (8, 30) if q else (10, 500), 'env': (2, 60) if q else (2, 1000),
+            'entities': (3, 60) if q else (2, 1000), 'threads': (3, 30) if q else (2, 400)}
     out = []
     for chk, (shards, n) in plan.items():
         for i in range(shards):
